@@ -123,16 +123,19 @@ def dayAdjust (y m d : Int) : Option (Int × Int × Int) :=
     | some md => dayDown d.toNat y m d md
   else some (y, m, d)
 
-/-- body of `_datetime_new` after argument validation -/
-def datetimeNewCore (y mo d h mi s ms : Int) : Option DT :=
-  let (ms, s) := carry ms s 1000
-  let (s, mi) := carry s mi 60
-  let (mi, h) := carry mi h 60
-  let (h, d) := carry h d 24
-  let (y, mo) := monthNorm y mo
-  match dayAdjust y mo d with
+/-- the final `return datetime.datetime(year, month, day, hour, minute, second, millisecond * 1000)` -/
+def construct (h mi s ms : Int) : Option (Int × Int × Int) → Option DT
   | none => none
   | some (y, mo, d) => mkDT y mo d h mi s ms
+
+/-- body of `_datetime_new` after argument validation -/
+def datetimeNewCore (y mo d h mi s ms : Int) : Option DT :=
+  let c1 := carry ms s 1000       -- (millisecond, second)
+  let c2 := carry c1.2 mi 60      -- (second, minute)
+  let c3 := carry c2.2 h 60       -- (minute, hour)
+  let c4 := carry c3.2 d 24       -- (hour, day)
+  let ym := monthNorm y mo        -- (year, month)
+  construct c4.1 c3.1 c2.1 c1.1 (dayAdjust ym.1 ym.2 c4.2)
 
 /-- bounds of `_DATETIME_NEW_ARGS` (tied to `Gen.argModels` by `C16.args_table`) -/
 def yearGte : Int := 100
@@ -294,11 +297,13 @@ def zone? : List Char → Option Int
 
 /-- split `(?:\.\d{1,6})?(?:Z|[+-]\d{2}:\d{2})` → (microseconds, offset seconds) -/
 def fracZone? : List Char → Option (Nat × Int)
-  | '.' :: rest =>
-    let ds := rest.takeWhile fun c => (digit? c).isSome
-    let tl := rest.dropWhile fun c => (digit? c).isSome
-    do let us ← frac? ds; let o ← zone? tl; pure (us, o)
-  | cs => (zone? cs).map fun o => (0, o)
+  | [] => none
+  | c :: rest =>
+    if c = '.' then
+      let ds := rest.takeWhile fun c => (digit? c).isSome
+      let tl := rest.dropWhile fun c => (digit? c).isSome
+      do let us ← frac? ds; let o ← zone? tl; pure (us, o)
+    else (zone? (c :: rest)).map fun o => (0, o)
 
 /-- the fields of text matching `_R_DATETIME`: (y, mo, d, h, mi, s, microsecond, offset seconds) -/
 structure IsoFields where
